@@ -16,6 +16,7 @@ import (
 var c14aliasPool = []KV{
 	{"a", "fx/b/pkg"}, {"ab", "fx/ab"}, {"f", "fx/pk"}, {"fx", "fx/a"}, {"fmt", "fx/fmt"}, {"os", "fx/os"}, {"errors", "fx/errors"},
 	{"context", "fx/a/pkg"}, {"reflect", "fx/pk2"}, {"strconv", "fx/p-k.g"}, {"github.com", "fx/pk"}, {"p", "fx/pk2"}, {"err", "fx/errors"}, {"qq", `"fx/pk2"`}, {"root", "fx"},
+	{"here", `"."`}, // an alias of the current package (the grammar of meta.imports admits "." as a target)
 }
 
 var c14positions = []struct{ id, sym string }{
@@ -69,6 +70,18 @@ func c14refs(table []KV) []c14ref {
 			out = append(out, c14ref{wr, "", true})
 			continue
 		}
+		viaHere := false
+		for _, kv := range table {
+			if kv.K == "here" && (path == "here" || strings.HasPrefix(path, "here/")) {
+				viaHere = true
+			}
+		}
+		if viaHere {
+			if path == "here" {
+				out = append(out, c14ref{wr, "", true}) // the alias itself denotes the current package
+			}
+			continue // a sub-path of the current package is a relative path: not specified
+		}
 		d := ResolveImport(path, table)
 		if fxExists(d) {
 			out = append(out, c14ref{wr, d, false})
@@ -107,7 +120,7 @@ func init() {
 	Register(&Check{
 		ID:    "C14",
 		Level: "exploration",
-		Rule: "alias tables = all subsets of size <= 2 (quick) / <= 3 (thorough) of 13 aliases (incl. aliases that are string prefixes of other aliases or of referenced paths, and aliases named like the packages the template imports: fmt, os, errors, context, reflect, strconv, github.com) x every written import form that denotes an existing fixture package (bare alias, alias/sub-path, unquoted path, quoted path, \".\") x 7 positions (constructor, type, !value argument, decorator, meta function, service value, type of a service without getter), one position varied at a time against a base reference; " +
+		Rule: "alias tables = all subsets of size <= 2 (quick) / <= 3 (thorough) of 16 aliases (incl. an alias of the current package - alone and next to one ordinary alias, see known findings -, aliases that are string prefixes of other aliases or of referenced paths, and aliases named like the packages the template imports: fmt, os, errors, context, reflect, strconv, github.com) x every written import form that denotes an existing fixture package (bare alias, alias/sub-path, unquoted path, quoted path, \".\") x 7 positions (constructor, type, !value argument, decorator, meta function, service value, type of a service without getter), one position varied at a time against a base reference; " +
 			"oracle: own denotation function (first path segment equal to an alias is substituted); the selector carrying the position's own symbol must resolve (go/types) to the denoted package, every path imported once, local names distinct, file type-checks (import block = packages used, template's own imports intact). non-trivial = accepted and resolved; distinct = distinct (table, position, written reference)",
 		Assumptions: []string{"fixture packages export identical symbols, so the package a selector resolves to is the only thing that distinguishes a right from a wrong resolution"},
 		BudgetQuick: 240 * time.Second, BudgetThorough: 1200 * time.Second,
@@ -189,6 +202,9 @@ func init() {
 						table = append(table, c14aliasPool[i])
 						names = append(names, c14aliasPool[i].K)
 					}
+					if names != nil && names[len(names)-1] == "here" && !(size == 1 || size == 2 && names[0] == "f") {
+						return // the alias of the current package: alone and next to one ordinary alias
+					}
 					refs := c14refs(table)
 					base := c14ref{`"fx/pk"`, ResolveImport("fx/pk", table), false}
 					if !fxExists(base.expect) {
@@ -236,6 +252,10 @@ func init() {
 									if n > 1 && l != "" {
 										c.Violation("local-name-shared", fmt.Sprintf("local name %s used for %d imports (%s)", l, n, id), fm, nil)
 									}
+								}
+								if len(gi.Errs) > 0 && (r.written == "here" || r.written == `"here"`) {
+									c.Violation("alias-of-the-current-package:"+c14positions[pos].id, fmt.Sprintf("meta.imports maps the alias here to \".\" (the current package); %s.%s is accepted and the generated file does not type-check (%s):\n%s", r.written, c14positions[pos].sym, id, strings.Join(gi.Errs, "\n")), fm, nil)
+									return
 								}
 								if len(gi.Errs) > 0 {
 									key := "typecheck"
